@@ -9,6 +9,7 @@ mod mailbox;
 mod ratelim;
 mod registry;
 mod routing;
+mod rpc;
 mod select;
 mod shutdown;
 mod supervision;
@@ -71,6 +72,7 @@ fn main() {
         "worker_enqueue" => worker::run(&args),
         "worker_books" => worker::books(&args),
         "routing" => routing::run(&args),
+        "rpc" => rpc::run(&args),
         "timers" => timers::run(&args),
         "select_listen" => select::listen(&args),
         "select_rws" => select::rws(&args),
